@@ -13,6 +13,7 @@ from props.c16_common import (
 )
 
 GAP_NS = 1 * NS
+UNKNOWN = ("?",)  # model value of a key after a reported loss, until it is written again
 MAX_EVENTS = 400
 
 
@@ -142,7 +143,7 @@ class SeqWorld:
         # 3: read after completed write
         if kind in READS:
             exp = self.truth[key]
-            if rec["res"] != exp:
+            if exp != UNKNOWN and rec["res"] != exp:
                 shape = f"{'hit' if rec['hit'] else 'miss'}-after-{self.cause.get(key) or 'no-removal'}"
                 viol.append((self.fp("stale-read", shape),
                              f"{s.label()}: {fmt_op(op)} returned {vstr(rec['res'])} but the "
@@ -157,7 +158,7 @@ class SeqWorld:
         if wb_layers:
             for k in KEYS:
                 tv = self.truth[k]
-                if tv is None:
+                if tv is None or tv == UNKNOWN:
                     continue
                 bv = s.backing.get_sync(k)
                 if bv == tv:
@@ -173,7 +174,7 @@ class SeqWorld:
                              f"{s.label()}: after {fmt_op(op)} the acknowledged write "
                              f"{k!r}={vstr(tv)} is neither in the backing store (holds {vstr(bv)}) nor a cached dirty "
                              f"entry (cached={sorted(anyheld1)}, dirty={sorted(wb_layers[0][1].get_dirty_keys())})"))
-                self.truth[k] = bv
+                self.truth[k] = UNKNOWN  # reported once; the key is unconstrained until written again
         # ghost: why a key left the cache
         for k in KEYS:
             if k in anyheld1:
@@ -221,7 +222,7 @@ class SeqWorld:
         for lab, st, _p in s.layers():
             parts.append(f"{lab}: held={sorted(st.get_cached_keys())} dirty={sorted(st.get_dirty_keys())}")
         parts.append("backing={" + ", ".join(f"{k}:{vstr(s.backing.get_sync(k))}" for k in KEYS) + "}")
-        parts.append("model={" + ", ".join(f"{k}:{vstr(v)}" for k, v in self.truth.items()) + "}")
+        parts.append("model={" + ", ".join(f"{k}:{'?' if v == UNKNOWN else vstr(v)}" for k, v in self.truth.items()) + "}")
         if self.last:
             l_ = self.last
             parts.insert(0, f"result={vstr(l_['res']) if is_val(l_['res']) or l_['res'] is None else l_['res']} "
